@@ -21,6 +21,14 @@ Classes (DESIGN section 4):
   dead    statements (simple and compound) that follow a return / break /
           continue in the same suite: unreachable code that must not change
           where the terminator leaves to
+  forms   the less common spellings of supported statements: for-targets that
+          are tuples / starred / nested / subscripts / attributes (with calls
+          in the target), chained and destructuring assignments, subscript and
+          attribute stores, bare return, constant expression statements,
+          docstrings, `while True`, signatures with defaults / *args /
+          keyword-only / positional-only / annotations / **kw, expressions
+          with lambda, comprehensions, conditional expressions, walrus,
+          f-strings, starred calls
 """
 import ast
 import random
@@ -40,6 +48,7 @@ class Cfg:
         self.shadow_builtins = False
         self.objs = False
         self.dead_code = False
+        self.forms = False
         self.__dict__.update(kw)
 
 
@@ -52,6 +61,7 @@ CLASSES = {
     "empty": Cfg(empty_arms=True),
     "boolnest": Cfg(nested_boolop=True),
     "dead": Cfg(dead_code=True),
+    "forms": Cfg(forms=True),
 }
 
 
@@ -99,7 +109,29 @@ class PG:
             return "(" + op.join(self.expr(depth + 1) for _ in range(n)) + ")"
         if self.c.tests == "expr":
             return self.exotic()
+        if self.c.forms:
+            return self.formexpr()
         return self.atom()
+
+    def formexpr(self):
+        """expression kinds with their own scopes / binding rules"""
+        c = self.r.random()
+        v = self.r.choice(self.names())
+        if c < 0.15:
+            return f"(lambda z: ext({self.uid()}, z) + {v})({self.atom()})"
+        if c < 0.3:
+            return f"sum([ext({self.uid()}, z) for z in it({self.uid()}, 2) if z != {v}])"
+        if c < 0.45:
+            return f"({self.atom()} if {self.atom()} else {self.atom()})"
+        if c < 0.6:
+            return f"(w := {self.atom()}) + w"
+        if c < 0.7:
+            return f"len(f'{{{self.atom()}}}-{{{v}!r}}')"
+        if c < 0.8:
+            return f"max(*[{self.atom()}, {self.atom()}])"
+        if c < 0.9:
+            return f"len({{z: {v} for z in it({self.uid()}, 2)}})"
+        return f"[{self.atom()}, {self.atom()}][ext({self.uid()}, 1)]"
 
     def exotic(self):
         c = self.r.random()
@@ -201,6 +233,8 @@ class PG:
         c = self.r.random()
         if depth >= self.c.maxdepth:
             c *= 0.5
+        if self.c.forms and self.r.random() < 0.35:
+            return self.formstmt(p, inloop)
         if c < 0.2:
             return [f"{p}{self.r.choice(self.vars)} = {self.rootexpr()}"]
         if c < 0.3:
@@ -224,8 +258,36 @@ class PG:
             return self.while_stmt(depth, inloop, ind)
         return self.for_stmt(depth, inloop, ind)
 
+    def formstmt(self, p, inloop):
+        c = self.r.random()
+        if c < 0.12:
+            return [f"{p}x = y = {self.rootexpr()}"]
+        if c < 0.24:
+            return [f"{p}x, y = {self.expr(1)}, {self.expr(1)}"]
+        if c < 0.34:
+            return [f"{p}x, *l[0:1] = {self.atom()}, {self.atom()}"]
+        if c < 0.46:
+            return [f"{p}l[ext({self.uid()}, {self.r.randint(0, 1)})] = {self.rootexpr()}"]
+        if c < 0.56:
+            return [f"{p}o.v {self.r.choice(['=', '+=', '-='])} {self.expr(1)}"]
+        if c < 0.64:
+            return [f"{p}l[{self.r.randint(0, 1)}] += {self.expr(1)}"]
+        if c < 0.72:
+            return [f"{p}{self.r.choice(['1', chr(39) + 's' + chr(39), '...', 'None', 'x', '(x, y)'])}"]
+        if c < 0.8:
+            return [f"{p}return"]
+        if c < 0.9:
+            return [f"{p}x = {self.formexpr()}"]
+        return [f"{p}ext({self.uid()}, l, o.v)"]
+
     def while_stmt(self, depth, inloop, ind):
         p = " " * ind
+        if self.c.forms and self.r.random() < 0.3:
+            # constant test: the only way out is break / return
+            body = self.nonempty(depth + 1, True, ind + 4)
+            t = self.r.choice(["True", "1", "not 0", "'s'"])
+            return ([f"{p}while {t}:", f"{p}    if not d({self.uid()}):", f"{p}        break"]
+                    + body)
         out = [f"{p}while {self.looptest()}:"] + self.nonempty(depth + 1, True, ind + 4)
         if self.r.random() < 0.3:
             out += [f"{p}else:"] + self.nonempty(depth + 1, inloop, ind + 4)
@@ -243,6 +305,31 @@ class PG:
         if self.c.nested_boolop and self.r.random() < 0.3:
             n = self.r.choice(["a or 2", "a and b", "ext(%d, a) or 1" % self.uid()])
         head = f"{p}for {tv} in it({self.uid()}, {n}):"
+        if self.c.forms and self.r.random() < 0.6:
+            # targets that are not a plain name
+            scoped = False
+            pairs = self.r.choice(["[]", "[(0, a)]", "[(0, a), (b, 1)]", "[(1, 2), (a, b), (3, 4)]"])
+            c = self.r.random()
+            if c < 0.3:
+                tv = self.r.choice(["x, y", "(x, y)", "[x, y]", "i0, y"])
+            elif c < 0.4:
+                tv = "x, *y"
+            elif c < 0.5:
+                tv = "x, (y, i0)"
+                pairs = self.r.choice(["[]", "[(0, (a, 1))]", "[(0, (a, 1)), (b, (2, 3))]"])
+            elif c < 0.65:
+                tv = f"l[{self.r.randint(0, 1)}]"
+                pairs = n
+            elif c < 0.8:
+                tv = f"l[ext({self.uid()}, {self.r.randint(0, 1)})]"
+                pairs = n
+            elif c < 0.9:
+                tv = "o.v"
+                pairs = n
+            else:
+                tv = f"ext({self.uid()}, o).v"
+                pairs = n
+            head = f"{p}for {tv} in it({self.uid()}, {pairs}):"
         if scoped:
             self.loopvars.append(tv)
         body = self.nonempty(depth + 1, True, ind + 4)
@@ -260,6 +347,15 @@ class PG:
             # a parameter / local called like the builtins the for-lowering reads
             args = self.r.choice(["a, b, next=3", "a, b, iter=4"])
             self.vars = self.vars + [args.split(", ")[2].split("=")[0]]
+        if self.c.forms:
+            args = self.r.choice([
+                "a, b", "a, b=3", "a, b, *rest", "a, b=1, *rest, k=ext(0, 5)", "a, /, b", "a, b, *, k=2",
+                "a: int, b: 'str' = 2", "a, b, **kw", "a, b=ext(0, 1), *rest, k=4, **kw"])
+            if "k=" in args:
+                self.vars = self.vars + ["k"]
+            if self.r.random() < 0.3:
+                body += ['    """docstring of f"""']
+            body += ["    l = [a, b]", "    o = type('O', (), {'__repr__': lambda s: 'O'})()", "    o.v = a"]
         if self.c.loop_first and self.r.random() < 0.4:
             saved = self.vars
             self.vars = [v for v in self.vars if v not in ("x", "y")]
